@@ -423,6 +423,10 @@ pub fn gen_c02(cx: &mut Ctx) {
             cx.emit("C02", "eval", &[Arg::F(Val::E(e.clone())), Arg::V(v.clone()), Arg::O(false)], true);
             cx.emit("C02", "evalc", &[Arg::F(Val::E(e.clone())), Arg::V(v.clone())], true);
         }
+        // shared nodes with sparse assignments: the result must not depend on the sharing
+        for v in assignments.iter().step_by(3) {
+            cx.emit("C02", "evalc.own", &[Arg::F(Val::E(e.clone())), Arg::V(v.clone())], true);
+        }
     }
     for e in wide_exprs(&mut cx.rng, &names(&["a", "b", "c"]), true) {
         for x in reps_of(&e) {
